@@ -2,101 +2,99 @@ import Fabio.Generated.C17
 import Fabio.Model.C17
 /-!
 Obligations over the facts regenerated from `/repo` on every run: what the model of
-`proxy/gzip/gzip_handler.go` silently assumes about the source (literals, guards, order of calls, who touches
-the pool, how the proxy installs the handler).
+`proxy/gzip/gzip_handler.go` silently assumes about the source.
+
+The facts are canonical, ordered, guarded event lists ("traces") of the exported entry points, produced by
+`tools/factgen/c17.go` (read its header): constants inlined, unexported helpers inlined with their arguments
+substituted (`@k` = a helper inlined inside an expression, bodies in `inlinedDefs`), identifiers printed by
+role (`recv`, `p0`…, `c0`… for the handler closure's parameters, `F[type]` for an unexported field,
+`V[type]`/initialiser for an unexported package variable, a local = the value it was assigned), early returns
+read as if/else, negative conditions swapped, `len(e) > 0` read as `e != ""`. Renaming, extracting/inlining
+helpers, if/else ↔ switch ↔ early return and these expression forms leave them unchanged; a change of what is
+called, stored or returned, in which order and under which condition, does not.
 -/
 namespace Fabio.Props.C17Facts
 open Fabio Fabio.Model.C17
 open Fabio.Generated.C17
 
-/-- the header-name literals are the ones the model uses … -/
-theorem literals_pinned :
-    headerVary = hVary ∧ headerAccept = hAccept ∧ headerAcceptEncoding = hAcceptEncoding ∧
-    headerContentEncoding = hContentEncoding ∧ headerContentType = hContentType ∧
-    headerContentLength = hContentLength ∧ encodingGzip = encGzip := by decide
+/-- the header names, encodings and separators the model uses occur as literals … -/
+theorem literals_present :
+    [hVary, hAccept, hAcceptEncoding, hContentEncoding, hContentType, hContentLength, encGzip,
+     ",", ";", "=", "q", "Q", "text/event-stream"].all (fun l => stringLiterals.contains l) = true := by decide
 
-/-- … and they are already canonical, so the direct map index `Header()[headerContentType]` in `Write` and
-`Header().Get/Set/Del` talk about the same key. -/
+/-- … and every header-name literal is already canonical, so the direct map index `Header()["Content-Type"]`
+in `Write` and `Header().Get/Set/Del` talk about the same key. -/
 theorem literals_canonical :
-    [headerVary, headerAccept, headerAcceptEncoding, headerContentEncoding, headerContentType,
-     headerContentLength].all (fun k => canonKey k == k) = true := by decide
+    (stringLiterals.filter (fun l => isPrefix "Accept".toList l.toList || isPrefix "Content-".toList l.toList ||
+        l == "Vary")).all
+      (fun k => canonKey k == k) = true := by decide
 
-theorem blacklist_pinned : Generated.C17.blacklistedAccept = Model.C17.blacklistedAccept := by decide
+/-- The handler: add `Vary`; wrap — one writer, one deferred `Close`, then the wrapped handler — exactly when
+`acceptsGzip` (= `@2`) holds and the method is not HEAD; otherwise call the handler on the bare writer. -/
+theorem handler_trace_pinned :
+    handlerTrace = ["c0.Header().Add(\"Vary\", \"Accept-Encoding\")",
+      "@2 && c1.Method != http.MethodHead => defer NewGzipResponseWriter(c0, p1).Close()",
+      "@2 && c1.Method != http.MethodHead => p0.ServeHTTP(NewGzipResponseWriter(c0, p1), c1)",
+      "(!@2 || c1.Method == http.MethodHead) => p0.ServeHTTP(c0, c1)"] := by rfl
 
-/-- `WriteHeader` passes a 1xx status on and returns; otherwise it decides only while `grw.writer == nil`, compresses only when the status allows a body and
-`isCompressable` holds, and always ends by forwarding the status. -/
-theorem writeHeader_shape :
-    writeHeaderStmts = ["if code >= 100 && code <= 199", "if grw.writer == nil", "grw.ResponseWriter.WriteHeader(code)"] ∧
-    informationalBranch = ["grw.ResponseWriter.WriteHeader(code)", "return"] ∧
-    writeHeaderGuard = "grw.writer == nil" ∧
-    compressCond = "bodyAllowedForStatus(code) && isCompressable(grw.Header(), grw.contentTypes)" := by decide
+/-- `acceptsGzip` (`@2`, with `zeroWeight` = `@1`), `bodyAllowedForStatus` (`@3`) and `isCompressable` (`@4`) as
+inlined: Accept searched for the blacklisted types by substring; Accept-Encoding split at commas, each element
+cut at the first semicolon, the trimmed coding compared with `gzip`, the first hit decides by its weight; the
+first parameter named q/Q decides the weight; 204/304 have no body; an encoded response is not compressable,
+otherwise the expression decides on the Content-Type. -/
+theorem helpers_pinned :
+    inlinedDefs = ["@1 = {range strings.Split(strings.Cut(elem(strings.Split(c1.Header.Get(\"Accept-Encoding\"), \",\")), \";\")#1, \";\") => strings.TrimSpace(strings.Cut(elem(strings.Split(strings.Cut(elem(strings.Split(c1.Header.Get(\"Accept-Encoding\"), \",\")), \";\")#1, \";\")), \"=\")#0); range strings.Split(strings.Cut(elem(strings.Split(c1.Header.Get(\"Accept-Encoding\"), \",\")), \";\")#1, \";\") && (strings.TrimSpace(strings.Cut(elem(strings.Split(strings.Cut(elem(strings.Split(c1.Header.Get(\"Accept-Encoding\"), \",\")), \";\")#1, \";\")), \"=\")#0) == \"q\" || strings.TrimSpace(strings.Cut(elem(strings.Split(strings.Cut(elem(strings.Split(c1.Header.Get(\"Accept-Encoding\"), \",\")), \";\")#1, \";\")), \"=\")#0) == \"Q\") => return strconv.ParseFloat(strings.TrimSpace(strings.Cut(elem(strings.Split(strings.Cut(elem(strings.Split(c1.Header.Get(\"Accept-Encoding\"), \",\")), \";\")#1, \";\")), \"=\")#1), 64)#1 == nil && strconv.ParseFloat(strings.TrimSpace(strings.Cut(elem(strings.Split(strings.Cut(elem(strings.Split(c1.Header.Get(\"Accept-Encoding\"), \",\")), \";\")#1, \";\")), \"=\")#1), 64)#0 == 0; return false}",
+      "@2 = {range []string{\"text/event-stream\"} && strings.Contains(c1.Header.Get(\"Accept\"), elem([]string{\"text/event-stream\"})) => return false; range strings.Split(c1.Header.Get(\"Accept-Encoding\"), \",\") && strings.TrimSpace(strings.Cut(elem(strings.Split(c1.Header.Get(\"Accept-Encoding\"), \",\")), \";\")#0) == \"gzip\" => return !@1; return false}",
+      "@3 = {return p0 != http.StatusNoContent && p0 != http.StatusNotModified}",
+      "@4 = {recv.Header().Get(\"Content-Encoding\") == \"\" => return recv.F[*regexp.Regexp].MatchString(recv.Header().Get(\"Content-Type\")); recv.Header().Get(\"Content-Encoding\") != \"\" => return false}"] := by rfl
 
-/-- the compress branch deletes Content-Length, sets Content-Encoding: gzip, takes a writer from the pool and
-resets it onto the response, in this order; the other branch writes straight through. -/
-theorem compress_branch_pinned :
-    compressBranch = ["grw.Header().Del(headerContentLength)", "grw.Header().Set(headerContentEncoding, encodingGzip)",
-      "gzipWriterPool.Get().(*gzip.Writer)", "grw.gzipWriter.Reset(grw.ResponseWriter)", "grw.gzipWriter"] ∧
-    plainBranch = ["grw.ResponseWriter"] := by decide
-
-/-- The method set of `*GzipResponseWriter`: the four declared methods plus what the embedded *interface*
-`http.ResponseWriter` promotes (`Header`, `Write`, `WriteHeader` — the latter two shadowed). In particular no
-`Flush`, `ReadFrom`, `Push`, `Unwrap`: a handler's assertion to `http.Flusher` fails, which is what the model's
-`fl` step says. Any new method or embedded field changes the machine and has to be modelled first. -/
-theorem writer_method_set :
-    writerMethods = ["Close", "Hijack", "Write", "WriteHeader"] ∧
-    writerEmbedded = ["http.ResponseWriter"] ∧
-    writerFields = ["writer io.Writer", "gzipWriter *gzip.Writer", "contentTypes *regexp.Regexp"] := by decide
-
-/-- the decision is taken in `WriteHeader` and nowhere else. -/
-theorem decision_single_site :
-    writerAssignments = ["WriteHeader: grw.gzipWriter = gzipWriterPool.Get().(*gzip.Writer)",
-      "WriteHeader: grw.writer = grw.gzipWriter", "WriteHeader: grw.writer = grw.ResponseWriter"] := by decide
+/-- `WriteHeader`: a 1xx status is passed on and nothing else happens; otherwise, only while undecided
+(`F[io.Writer] == nil`): if the status allows a body and the response is compressable — delete Content-Length,
+set Content-Encoding: gzip, take a writer from the pool, reset it onto the response, select it — else select the
+response itself; finally forward the status. In this order. -/
+theorem writeHeader_trace_pinned :
+    writeHeaderTrace = ["p0 >= 100 && p0 <= 199 => recv.ResponseWriter.WriteHeader(p0)",
+      "(p0 < 100 || p0 > 199) && recv.F[io.Writer] == nil && @3 && @4 => recv.Header().Del(\"Content-Length\")",
+      "(p0 < 100 || p0 > 199) && recv.F[io.Writer] == nil && @3 && @4 => recv.Header().Set(\"Content-Encoding\", \"gzip\")",
+      "(p0 < 100 || p0 > 199) && recv.F[io.Writer] == nil && @3 && @4 => recv.F[*gzip.Writer] = V[sync.Pool].Get().(*gzip.Writer)",
+      "(p0 < 100 || p0 > 199) && recv.F[io.Writer] == nil && @3 && @4 => recv.F[*gzip.Writer].Reset(recv.ResponseWriter)",
+      "(p0 < 100 || p0 > 199) && recv.F[io.Writer] == nil && @3 && @4 => recv.F[io.Writer] = recv.F[*gzip.Writer]",
+      "(p0 < 100 || p0 > 199) && recv.F[io.Writer] == nil && (!@3 || !@4) => recv.F[io.Writer] = recv.ResponseWriter",
+      "(p0 < 100 || p0 > 199) => recv.ResponseWriter.WriteHeader(p0)"] := by rfl
 
 /-- `Write`: while undecided, fill in a sniffed Content-Type when the map has none, then `WriteHeader(200)`;
-then write to whatever was decided. -/
-theorem write_shape :
-    writeStmts = ["if grw.writer == nil", "return grw.writer.Write(b)"] ∧
-    writeUndecided = ["if !ok", "grw.WriteHeader(http.StatusOK)"] ∧
-    sniffGuard = "_, ok := grw.Header()[headerContentType]; !ok" ∧
-    sniffBranch = ["grw.Header().Set(headerContentType, http.DetectContentType(b))"] := by decide
+then write to whatever was selected. -/
+theorem write_trace_pinned :
+    writeTrace = ["recv.F[io.Writer] == nil && !recv.Header()[\"Content-Type\"]#1 => recv.Header().Set(\"Content-Type\", http.DetectContentType(p0))",
+      "recv.F[io.Writer] == nil => recv.WriteHeader(http.StatusOK)",
+      "return recv.F[io.Writer].Write(p0)"] := by rfl
 
 /-- `Close` closes the gzip writer (which flushes it to the response) and only then puts it back. -/
 theorem close_then_put :
-    closeStmts = ["if grw.gzipWriter != nil"] ∧
-    closeBranch = ["grw.gzipWriter.Close()", "gzipWriterPool.Put(grw.gzipWriter)"] := by decide
+    closeTrace = ["recv.F[*gzip.Writer] != nil => recv.F[*gzip.Writer].Close()",
+      "recv.F[*gzip.Writer] != nil => V[sync.Pool].Put(recv.F[*gzip.Writer])"] := by rfl
 
-/-- the pool is touched in exactly two places: `Get` in `WriteHeader`, `Put` in `Close`. -/
-theorem pool_sites : poolGetIn = ["WriteHeader"] ∧ poolPutIn = ["Close"] := by decide
+/-- the pool is touched from exactly two entry points (`Get` under `WriteHeader`, `Put` under `Close`), and the
+writer's fields are stored to under `WriteHeader` only: the decision is taken in one place. -/
+theorem pool_and_decision_sites :
+    poolGetIn = ["WriteHeader"] ∧ poolPutIn = ["Close"] ∧
+    fieldStores = ["WriteHeader: F[*gzip.Writer]",
+      "WriteHeader: F[io.Writer]",
+      "WriteHeader: F[io.Writer]"] := by decide
 
-/-- the handler adds `Vary`, wraps only for accepting non-HEAD requests, and defers exactly one `Close`. -/
-theorem handler_shape :
-    handlerStmts = ["w.Header().Add(headerVary, headerAcceptEncoding)", "if acceptsGzip(r) && r.Method != http.MethodHead"] ∧
-    handlerGzipBranch = ["NewGzipResponseWriter(w, contentTypes)", "defer gzWriter.Close()", "h.ServeHTTP(gzWriter, r)"] ∧
-    handlerPlainBranch = ["h.ServeHTTP(w, r)"] ∧ handlerCloseCalls = 1 := by decide
-
-theorem isCompressable_shape :
-    isCompressableStmts = ["if header.Get(headerContentEncoding) != \"\"", "return contentTypes.MatchString(header.Get(headerContentType))"] ∧
-    isCompressableBranch = ["return false"] ∧
-    bodyAllowedForStatusStmts = ["return code != http.StatusNoContent && code != http.StatusNotModified"] := by decide
-
-/-- `acceptsGzip`: Accept is searched for the blacklisted types by substring; Accept-Encoding is split at
-commas, each element cut at the first semicolon, the trimmed coding compared with `gzip`, the first hit decides
-by its weight; `zeroWeight` takes the first parameter named q/Q. -/
-theorem acceptsGzip_shape :
-    acceptsGzipCalls = ["r.Header.Get(headerAccept)", "strings.Contains(accept, contentType)",
-      "strings.Split(r.Header.Get(headerAcceptEncoding), \",\")", "r.Header.Get(headerAcceptEncoding)",
-      "strings.Cut(enc, \";\")", "strings.TrimSpace(coding)", "zeroWeight(params)"] ∧
-    acceptsGzipReturns = ["false", "!zeroWeight(params)", "false"] ∧
-    acceptsGzipConds = ["strings.Contains(accept, contentType)", "strings.TrimSpace(coding) == encodingGzip"] ∧
-    zeroWeightCalls = ["strings.Split(params, \";\")", "strings.Cut(p, \"=\")", "strings.TrimSpace(name)",
-      "strconv.ParseFloat(strings.TrimSpace(value), 64)", "strings.TrimSpace(value)"] ∧
-    zeroWeightReturns = ["err == nil && q == 0", "false"] ∧
-    zeroWeightConds = ["name = strings.TrimSpace(name); name == \"q\" || name == \"Q\""] := by decide
+/-- The method set of `*GzipResponseWriter` that matters for interface satisfaction: the exported declared
+methods plus what the embedded *interface* `http.ResponseWriter` promotes (`Header`, `Write`, `WriteHeader`).
+In particular no `Flush`, `ReadFrom`, `Push`, `Unwrap`: a handler's assertion to `http.Flusher` fails, which is
+what the model's `fl` step says. Any new exported method or embedded field changes the machine and has to be
+modelled first. (Field names and unexported helper methods are free.) -/
+theorem writer_method_set :
+    writerMethods = ["Close", "Hijack", "Write", "WriteHeader"] ∧
+    writerEmbedded = ["http.ResponseWriter"] ∧
+    writerFieldTypes = ["*gzip.Writer", "*regexp.Regexp", "io.Writer"] := by decide
 
 /-- the proxy installs the handler exactly when an expression is configured, with that expression. -/
 theorem proxy_wraps_when_configured :
-    proxyWrapCond = "p.Config.GZIPContentTypes != nil" ∧
-    proxyWrapBranch = ["gzip.NewGzipHandler(h, p.Config.GZIPContentTypes)"] := by decide
+    proxyWrap = ["recv.Config.GZIPContentTypes != nil => gzip.NewGzipHandler(_, recv.Config.GZIPContentTypes)"] := by rfl
 
 /-- the expression the streams use most is the documented one; the built-in default is "off". -/
 theorem doc_pattern_pinned :
